@@ -140,7 +140,27 @@ void reb_simulation_move_to_hel(struct reb_simulation* const r){
     if (N_real>0){
 	    struct reb_particle* restrict const particles = r->particles;
         struct reb_particle hel = r->particles[0];
-        // Note: Variational particles will not be affected.
+        // Variational particles: the shift x_i -> x_i - x_0 is linear, so the same shift applies to derivatives of any order.
+        for (int v=0;v<r->N_var_config;v++){
+            if (r->var_config[v].testparticle<0){ // Variations of a test particle do not involve particle 0.
+                struct reb_particle* const vp = particles + r->var_config[v].index;
+                const struct reb_particle vhel = vp[0];
+                for (int i=1;i<N_real;i++){
+                    vp[i].x  -= vhel.x;
+                    vp[i].y  -= vhel.y;
+                    vp[i].z  -= vhel.z;
+                    vp[i].vx -= vhel.vx;
+                    vp[i].vy -= vhel.vy;
+                    vp[i].vz -= vhel.vz;
+                }
+                vp[0].x = 0.;
+                vp[0].y = 0.;
+                vp[0].z = 0.;
+                vp[0].vx = 0.;
+                vp[0].vy = 0.;
+                vp[0].vz = 0.;
+            }
+        }
         for (int i=1;i<N_real;i++){
             particles[i].x  -= hel.x;
             particles[i].y  -= hel.y;
